@@ -89,7 +89,7 @@ int Logger::operator()()
 
 		if (msg_ptr)
 		{
-			if (msg_ptr->_str.empty())  // means exit
+			if (msg_ptr->_str.empty() && _stopping)  // the empty line stop() queues means exit; an empty line logged earlier is just a line
 			{
 #if (FIX8_MPMC_SYSTEM == FIX8_MPMC_FF)
 				break;
